@@ -59,7 +59,7 @@ func c17Run(op string, v []string, order []int) (obs string, fails []string) {
 	if hasSlow {
 		// slow servers complete last, with the deadline error; everyone else has long answered
 		var cancel context.CancelFunc
-		ctx, cancel = context.WithTimeout(ctx, time.Duration((n+2)*c17Slot)*time.Millisecond)
+		ctx, cancel = context.WithTimeout(ctx, time.Duration((n+2)*c17Slot+300)*time.Millisecond)
 		defer cancel()
 	}
 	var reply int
@@ -75,14 +75,19 @@ func c17Run(op string, v []string, order []int) (obs string, fails []string) {
 			return "lost"
 		}
 	}
+	anyOK, allOK := false, true
+	okReplies := map[int]bool{}
+	// which of several successful servers' replies the caller ends up with depends on their completion order,
+	// forced here by delays only: "S" = the reply of a server that succeeded
 	showReply := func(ok bool) string {
 		if !ok {
 			return "*"
 		}
+		if okReplies[reply] {
+			return "S"
+		}
 		return strconv.Itoa(reply)
 	}
-	anyOK, allOK := false, true
-	okReplies := map[int]bool{}
 	for _, o := range v {
 		if strings.HasPrefix(o, "ok") {
 			anyOK = true
